@@ -7,9 +7,12 @@ package main
 
 import (
 	"bytes"
+	"crypto"
 	"crypto/ecdsa"
 	"crypto/elliptic"
 	crand "crypto/rand"
+	"crypto/rsa"
+	"crypto/sha1"
 	stdx509 "crypto/x509"
 	"crypto/x509/pkix"
 	"encoding/asn1"
@@ -473,6 +476,39 @@ func c18signedData(cert *x509.Certificate, key *sm2.PrivateKey, content []byte, 
 	return outer
 }
 
+// AddSigner stamps the signed attributes with time.Now(), the one input of the corpus that does not come
+// from the seed: overwrite the signing time with a fixed one and sign the attributes again.
+func c18fixSigningTime(der []byte, f *c18fix) []byte {
+	der = append([]byte{}, der...)
+	ts := c18tlvs(der)
+	at, sg := -1, -1
+	for i, t := range ts {
+		if t.tag == 0x17 && t.valLen == 13 {
+			at = i // the last UTCTime: signer infos follow the certificates
+		}
+		if t.tag == 0x04 && t.valLen == 256 {
+			sg = i
+		}
+	}
+	if at < 0 || sg < 0 {
+		panic("c18 corpus: signed data layout")
+	}
+	copy(der[ts[at].valOff:], "240102030405Z")
+	a := ts[ts[ts[at].parent].parent].parent // UTCTime < SET < Attribute < [0] attributes
+	if a < 0 || ts[a].tag != 0xa0 {
+		panic("c18 corpus: signed attributes not found")
+	}
+	tbs := append([]byte{0x31}, der[ts[a].lenOff:ts[a].valOff+ts[a].valLen]...)
+	h := sha1.Sum(tbs)
+	sig, err := rsa.SignPKCS1v15(nil, f.rsaKey, crypto.SHA1, h[:])
+	c18must(err)
+	copy(der[ts[sg].valOff:], sig)
+	p7, err := x509.ParsePKCS7(der)
+	c18must(err)
+	c18must(p7.Verify())
+	return der
+}
+
 // c18toBER re-encodes DER with every constructed element in indefinite-length form
 func c18toBER(d []byte) []byte {
 	var out []byte
@@ -623,6 +659,7 @@ func c18corpus(r *rng) []*c18item {
 	c18must(sdb.AddSigner(f.rsaCert, f.rsaKey, x509.SignerInfoConfig{}))
 	s1, err := sdb.Finish()
 	c18must(err)
+	s1 = c18fixSigningTime(s1, f)
 	p7s = append(p7s, s1, c18signedData(f.ca, f.k, r.bytes(25), true, false), c18signedData(f.ca, f.k, r.bytes(25), false, false), c18signedData(f.ca, f.k, r.bytes(5), true, true))
 	dg, err := x509.DegenerateCertificate(f.leaf.Raw)
 	c18must(err)
